@@ -188,6 +188,29 @@ func StartJitter() *Jitter {
 	return j
 }
 
+// Probe adds a latency probe of the environment the driver depends on (typically a read from the embedded etcd, whose
+// answers on a loaded machine can take hundreds of milliseconds although this process is scheduled normally): f is
+// called every 50 ms; a call that takes longer than limit counts like a starvation episode.
+func (j *Jitter) Probe(f func(), limit time.Duration) {
+	go func() {
+		for {
+			select {
+			case <-j.stop:
+				return
+			default:
+			}
+			t0 := time.Now()
+			f()
+			if time.Since(t0) > limit {
+				j.mu.Lock()
+				j.bad = append(j.bad, t0)
+				j.mu.Unlock()
+			}
+			time.Sleep(50 * time.Millisecond)
+		}
+	}()
+}
+
 // StarvedSince reports whether the process was starved at some moment after t0.
 func (j *Jitter) StarvedSince(t0 time.Time) bool {
 	j.mu.Lock()
